@@ -153,6 +153,7 @@ func init() {
 				needle = "closing connection for"
 			}
 			g := &gateLogger{needle: needle, hit: make(chan struct{}), gate: make(chan struct{})}
+			ws.SetLogger(g) // configuration before anything is started
 			c := startWsServer(srvOpts{})
 			cl := ws.NewClient()
 			cl.SetRequestedSubProtocol("ocpp1.6")
@@ -164,7 +165,6 @@ func init() {
 			var recs int64
 			cl.SetReconnectedHandler(func() { atomic.AddInt64(&recs, 1) })
 			cl.SetMessageHandler(func([]byte) error { return nil })
-			ws.SetLogger(g) // before Start: the socket keeps the logger it was created with
 			if err := cl.Start(c.url("race")); err != nil {
 				fmt.Println("HARNESS-ERROR c16_stop: start", err)
 				return res
